@@ -618,6 +618,26 @@ func c04Handshake(w *world.World) []world.Violation {
 	return vs
 }
 
+var highKeys [16384]string
+
+// highByteKey: for every slot a brace-free key that contains bytes >= 0x80 (a multi-byte UTF-8 rune, a lone continuation
+// byte, 0xff) next to a counter
+func highByteKey(slot int) string {
+	if highKeys[0] == "" {
+		left := 16384
+		pre := []string{"\xe4\xb8\xad", "\xd0\x9f\xd1\x80", "\xff", "\x80\xfe", "caf\xc3\xa9"}
+		for i := 0; left > 0; i++ {
+			k := pre[i%len(pre)] + fmt.Sprint(i) + "\xc3"
+			s := world.SpecSlot([]byte(k))
+			if highKeys[s] == "" {
+				highKeys[s] = k
+				left--
+			}
+		}
+	}
+	return highKeys[slot]
+}
+
 func c04AllSlots(lay string, cmd string, tagged int, disable bool) *world.Scenario {
 	initSlotKeys()
 	sc := &world.Scenario{Nodes: layout(lay), Bound: 0, Family: "all-slots", Horizon: 1 << 22, DisableSlave: disable, InputEnum: true}
@@ -630,6 +650,9 @@ func c04AllSlots(lay string, cmd string, tagged int, disable bool) *world.Scenar
 		case 2:
 			// a closing brace BEFORE the first opening one does not end the tag
 			k = fmt.Sprint(s%5) + "}{" + k + "}" + fmt.Sprint(s%3) + "{x}"
+		case 3:
+			// bytes >= 0x80 (UTF-8 text, invalid UTF-8, binary) in the key: a brace-free key per slot
+			k = highByteKey(s)
 		}
 		var r Req
 		if cmd == "get" {
@@ -883,6 +906,9 @@ func c04Scenarios(tier string) []*world.Scenario {
 			}
 			if thorough || (l == "thirds" && cmd == "get") {
 				out = append(out, c04AllSlots(l, cmd, 2, false))
+			}
+			if thorough || (l == "thirds" && cmd == "set") {
+				out = append(out, c04AllSlots(l, cmd, 3, false))
 			}
 		}
 		out = append(out, c04AllSlots(l, "get", 0, true))
